@@ -99,4 +99,17 @@ Proof.
 Qed.
 Theorem tokenize_nofuel : forall s, tokenize s <> Er EFuel.
 Proof. intros s. unfold Scan.tokenize. pose proof (toks_nofuel (S (length s)) s ltac:(lia)) as H. destruct (toks (S (length s)) s) as [[|]|]; try discriminate. exact H. Qed.
+(* bounded output: every token consumes at least one character, so a text of n characters has at most n tokens (and a successful scan at least one) *)
+Theorem toks_count : forall n s ts, toks n s = Ok ts -> (length ts <= length s)%nat.
+Proof.
+  induction n as [|n IH]; intros s ts H; [discriminate|]. cbn [Scan.toks] in H.
+  pose proof (skip_len s Normal) as Ls. destruct (skip Normal s) as [|c s'] eqn:E; [injection H as <-; cbn; lia|].
+  destruct (next_token (c :: s')) as [[t rest]|e] eqn:Nt; [|discriminate]. apply next_token_len in Nt.
+  destruct (toks n rest) as [ts'|] eqn:R; [|discriminate]. injection H as <-. apply IH in R. cbn [length] in *. lia.
+Qed.
+Theorem tokenize_count : forall s ts, tokenize s = Ok ts -> (1 <= length ts <= length s)%nat.
+Proof.
+  intros s ts H. unfold Scan.tokenize in H. destruct (toks (S (length s)) s) as [[|t l]|] eqn:R; try discriminate. injection H as <-.
+  apply toks_count in R. cbn [length] in *. lia.
+Qed.
 End T.
